@@ -27,7 +27,7 @@ ASSUMPTIONS = ['the reference model shares CPython list/dict/Decimal with the sy
 REAL = ['smartquery.* (lexer, PLY parser, evaluator, builtins)', 'decimal', 'copy']
 STUB = ['host (owner of the names mapping)']
 REACH_PROBES = ('failed_then_judged', 'lang_error', 'other_error', 'nested_target', 'equal_typed_key_pair',
-                'negative_index', 'fractional_index', 'write_then_read_same_key')
+                'negative_index', 'fractional_index', 'write_then_read_same_key', 'repeated_source', 'cache_hit')
 
 CONTAINERS = ['l', 'd', 'n', 'e', 'm']
 
@@ -42,7 +42,11 @@ def _world(r):
         names['e'] = []
     if r.random() < 0.5:
         names['m'] = {'m': [['in', gen.host_list_spec(r, 0, 3, depth=0)], ['dd', gen.host_dict_spec(r, 0, 3, depth=0)]]}
-    return {'names': names, 'host_fns': []}
+    w = {'names': names, 'host_fns': []}
+    if r.random() < 0.35:
+        # the parser may carry a parse cache (same source text -> same tree object evaluated again)
+        w['cache'] = r.choice([{'kind': 'dict'}, {'kind': 'dict'}, {'kind': 'lru', 'bound': 2}])
+    return w
 
 
 def _targets(model):
@@ -117,6 +121,8 @@ def _dict_key(r, obj, ctxp):
 
 def _value(r, model):
     x = r.random()
+    if x < 0.12:
+        return r.choice([['list', []], ['dict', []]])
     if x < 0.6:
         return gen.scalar_tree(r)
     if x < 0.85:
@@ -233,8 +239,13 @@ def generate(seed, tier):
     ops = []
     last_write = None
     for _ in range(n_ops):
-        prog, probes = _gen_op(ro, model, last_write)
-        op = {'op': 'eval', 'prog': prog, 'style': gen.style(S['render']), 'probes': probes}
+        if ops and ro.random() < 0.15:
+            prev = ro.choice(ops)       # the very same source text again (a cached tree is evaluated twice)
+            prog, probes = prev['prog'], ['repeated_source']
+            op = {'op': 'eval', 'prog': prog, 'style': prev['style'], 'probes': probes}
+        else:
+            prog, probes = _gen_op(ro, model, last_write)
+            op = {'op': 'eval', 'prog': prog, 'style': gen.style(S['render']), 'probes': probes}
         ops.append(op)
         out = model.run(prog)
         last_write = None
@@ -264,6 +275,8 @@ def execute(case, ctx):
             ctx.nontrivial = True
             ctx.probe('failed_then_judged')
         ctx.state(W.state_digest())
+    if W.cache is not None:
+        ctx.probe('cache_hit', W.cache.stats['hit'])
 
 
 def _kind_of(prog):
